@@ -214,7 +214,7 @@ func VerifC11ListOps() {
 		sp.Append(nm, vl)
 		ml = model.ListAppend(ml, nm, vl)
 	}
-	depth := vnd.Param("C11.OpsDepth", 1, 2)
+	depth := vnd.Param("C11.OpsDepth", 1, 1)
 	for i := 0; i < depth; i++ {
 		switch vnd.Pick(4) {
 		case 0:
@@ -262,7 +262,7 @@ func VerifC11ListOps() {
 func VerifC11SortRunes() {
 	_, sp := freshParams()
 	var ml []model.Pair
-	n := 2 + vnd.Pick(vnd.Param("C11.NSortRunes", 1, 2))
+	n := 2 + vnd.Pick(vnd.Param("C11.NSortRunes", 1, 1))
 	for i := 0; i < n; i++ {
 		var nm string
 		switch vnd.Pick(3) {
@@ -357,7 +357,7 @@ func VerifC11FormRoundTrip() {
 		if vnd.Pick(2) == 0 {
 			nm, vl = vnd.Str(vnd.Len(vnd.Param("C11.KRoundFull", 1, 1))), vnd.Str(vnd.Len(vnd.Param("C11.KRoundFull", 1, 1)))
 		} else {
-			nm, vl = symPair(vnd.Param("C11.KRoundSigma", 1, 2))
+			nm, vl = symPair(vnd.Param("C11.KRoundSigma", 1, 1))
 		}
 		sp.Append(nm, vl)
 		ml = append(ml, model.Pair{Name: nm, Value: vl})
